@@ -756,6 +756,10 @@ func (e *Env) Snapshot(from int) {
 	e.checkNames("snapshot", s, sn.M)
 	for _, n := range s.GetCollectionNames() {
 		sn.H[n] = s.GetCollection(n)
+		// a snapshot of a snapshot shares its parent's version: if that has been superseded, so has this
+		if from >= 0 && e.Stale[e.Snaps[from].H[n]] {
+			e.Stale[sn.H[n]] = true
+		}
 	}
 	e.Snaps = append(e.Snaps, sn)
 }
@@ -1154,6 +1158,7 @@ func (e *Env) CopyTo(snap int, flushEvery int) (dst *vfile.File) {
 		return
 	}
 	e.LastCopyDst, e.LastCopyFlushEvery = dst, flushEvery
+	e.LastCopyModel = ms
 	return dst
 }
 
